@@ -93,7 +93,13 @@ DeclareProbes ==
     { Probe("raises-declare", Caller(meth, {d}, <<Expr(IntL(0))>>), DeclarableOK(d), [declared_class |-> d, method |-> meth])
       : d \in {"E1", "E1b", "Exception", "NotExc"}, meth \in BOOLEAN }
 
-Probes == CASE Part = "raise" -> RaiseProbes [] Part = "position" -> PositionProbes [] Part = "declare" -> DeclareProbes [] Part = "multi" -> MultiProbes
+\* lists: every declared class has to be an exception, whatever its place in the list
+DeclLists == { <<"E1", "NotExc">>, <<"NotExc", "E1">>, <<"E1", "E2", "NotExc">>, <<"E1", "NotExc", "E2">>, <<"E1", "E2">>, <<"E2", "E1b", "Exception">>, <<"NotExc", "NotExc">> }
+DeclareListProbes ==
+    { Probe("raises-declare-list", IF meth THEN Class("Caller", <<>>, <<>>, <<>>, <<Method("c", TRUE, <<>>, "Int", ds, <<Expr(IntL(0))>>)>>) ELSE Fun("c", <<>>, "Int", ds, <<Expr(IntL(0))>>),
+            \A j \in 1..Len(ds) : DeclarableOK(ds[j]), [declared_list |-> ds, method |-> meth])
+      : ds \in DeclLists, meth \in BOOLEAN }
+Probes == CASE Part = "raise" -> RaiseProbes [] Part = "position" -> PositionProbes [] Part = "declare" -> DeclareProbes \cup DeclareListProbes [] Part = "multi" -> MultiProbes
 
 Cases == { [prop |-> "C08", kind |-> p.kind, ctx |-> <<>>, hoist |-> FALSE, expect |-> p.expect, note |-> p.note, prog |-> Plug(<<>>, FALSE, p)]
            : p \in Probes }
